@@ -191,10 +191,59 @@ class Facts:
                 if sig in seen:
                     continue
                 seen.add(sig)
+                self._add_str_consts(doc)
                 out.append(mir.Crate(doc, f))
                 self.loaded.append('%s/%s' % (cfg, bn))
             self._crates[key] = out
         return self._crates[key]
+
+    def _add_str_consts(self, doc):
+        """the driver evaluates integer / byte constants only; `const ERROR_MEMBER: &str = "error"` (module level or local to a fn) is taken from the
+        syntax facts: a named string constant whose name is unique in the crate's sources becomes an evaluated constant of the crate"""
+        srcdir = os.path.dirname(doc.get('src') or '')
+        if not srcdir:
+            return
+        found = {}
+
+        def visit(n):
+            if isinstance(n, list):
+                for x in n:
+                    visit(x)
+            elif isinstance(n, dict):
+                if n.get('k') == 'const' and isinstance(n.get('expr'), dict) and n['expr'].get('k') == 'str' and 'str' in (n.get('ty') or ''):
+                    found.setdefault(n.get('name'), []).append(n['expr'].get('value'))
+                for v in n.values():
+                    if isinstance(v, (list, dict)):
+                        visit(v)
+        try:
+            for fn, f in self.tpl.files.items():
+                if fn.startswith(srcdir + '/'):
+                    visit(f.get('items'))
+        except Exception:
+            return
+        have = {c['path'] for c in doc.get('consts', [])}
+        names = {nm: vs[0] for nm, vs in found.items() if len(vs) == 1 and isinstance(vs[0], str)}
+        if not names:
+            return
+
+        def visit2(o):
+            if isinstance(o, dict):
+                if o.get('k') == 'const' and o.get('def') and 'str' not in o and 'val' not in o and (o.get('ty') or '').replace("'static ", '') in ('&str',):
+                    nm = o['def'].split('::')[-1]
+                    if nm in names:
+                        o['str'] = names[nm]
+                        o['named'] = o['def']
+                for v in o.values():
+                    visit2(v)
+            elif isinstance(o, list):
+                for v in o:
+                    visit2(v)
+        import re as _re
+        pat = _re.compile(r'const (?:[\w<>{}#\' ]+::)*(%s)\b' % '|'.join(_re.escape(n) for n in names))
+        for b in doc.get('bodies', []):
+            visit2(b.get('blocks'))
+            if b.get('promoted'):
+                b['promoted'] = [[pat.sub(lambda m: 'const "%s"' % names[m.group(1)], ln) for ln in pr] for pr in b['promoted']]
 
     def crate(self, name, cfg='full'):
         """the compilation of `name` with the largest feature set (lib/proc-macro preferred)"""
